@@ -213,6 +213,14 @@ func H_C20_Reopen() {
 		rctx = verifCancelledCtx(false)
 	}
 	err := s.b.Reopen(rctx)
+	if nondetBool() {
+		// a second Reopen does all of it again, whatever the first one found
+		for _, n := range all {
+			n.reopenCalls = 0
+		}
+		err = s.b.Reopen(rctx)
+		verifReach("C20.reopen.twice")
+	}
 	if nfail == 0 {
 		verifAssert(err == nil, "C20.reopen.nil-when-no-failure")
 		for _, n := range all {
